@@ -60,7 +60,7 @@ def enumerate_cases(tier, seed):
   for s in specs:
     if s[0] in ("qb", "qr", "po2", "rpo2") and s[1] > 5:
       continue
-    if s[0] == "float":
+    if s[0] in ("float", "bernoulli"):     # bernoulli samples: no deterministic reachable set to replay
       continue
     cases.append(dict(sub="conformance", spec=list(s)))
   return cases
@@ -148,8 +148,8 @@ def run_pairs(case):
       continue
     wmin, wmax, wl = qtypes.extremes(wd)
     xmin, xmax, xl = qtypes.extremes(xd)
-    small = (wspec[0] in ("ternary", "binary", "binary01") or wspec[1] <= bf) and \
-            (xspec[0] in ("ternary", "binary", "binary01") or xspec[1] <= bf)
+    sets = ("ternary", "binary", "binary01", "sternary", "sbinary", "bernoulli")
+    small = (wspec[0] in sets or wspec[1] <= bf) and (xspec[0] in sets or xspec[1] <= bf)
     if small:
       wv, xv = qtypes.enumerate_values(wd), qtypes.enumerate_values(xd)
       prods = np.multiply.outer(wv, xv).reshape(-1)
